@@ -56,6 +56,8 @@ def gen_cases(tier, seed):
         yield "neg_keys", {"salt": rng.getrandbits(32), "n": 12}
     for i in range(6 if q else 60):
         yield "neg_arbitrary", {"salt": rng.getrandbits(32), "n": 300}
+    for i in range(3 if q else 30):
+        yield "arg_forms", {"salt": rng.getrandbits(32)}
     yield "all_versions", {"salt": rng.getrandbits(32)}
 
 
@@ -115,6 +117,15 @@ def _negative(ctx, data, cls):
 def run_case(kind, params, ctx):
     import bits
     rng = rng_for("C08", kind, params.get("salt", 0))
+    if kind == "arg_forms":
+        import bits.script as bs
+        from .common import arg_forms
+        pt = secp.pub(rng.randrange(1, secp.N))
+        for data in (secp.sec1_encode(pt, True), secp.sec1_encode(pt, False), r58.check_encode(b"\x00" + rand_bytes(rng, 20)), r58.check_encode(b"\xc4" + rand_bytes(rng, 20)),
+                     rb.encode_segwit("bc", 0, rand_bytes(rng, 20)), rb.encode_segwit("tb", 1, rand_bytes(rng, 32))):
+            arg_forms(ctx, "scriptpubkey", bs.scriptpubkey, [data], prop_exc=())
+        ctx.nontrivial()
+        return
     if kind == "addr":
         net, k = params["net"], params["kind"]
         ln = 32 if k == "p2wsh" else 20
